@@ -154,7 +154,9 @@ def gen_ff(rnd):
         if rnd.random() < 0.25:
             link['patterns'] = [[('BB', 0, {}), ('BB', 1, {'resname': 'GLY'})], [('BB', 0, {}), ('SC1', 1, {})]][:rnd.randint(1, 2)]
         if rnd.random() < 0.25:
-            link['non_edges'] = [[('BB', 0), ('BB', rnd.choice([1, -1]), {'resname': 'PRO'} if rnd.random() < 0.5 else {})]]
+            o1 = rnd.choice([0, 0, 1, -1, 2])
+            link['non_edges'] = [[('BB', o1), ('BB' if o1 == 0 else rnd.choice(['BB', 'SC1']), rnd.choice([x for x in (1, -1, 0, 2) if x != o1 or True]),
+                                   {'resname': 'PRO'} if rnd.random() < 0.5 else {})]]
         if rnd.random() < 0.3:
             link['edges'] = [[('BB', 0), ('SC1', 0)]]
         if rnd.random() < 0.3:
@@ -305,7 +307,8 @@ def render_ff(d, rnd, fault=None):
             if it['non_edges']:
                 emit('[ non-edges ]', ['subsection'])
                 for (b1, o1), (b2, o2, a2) in it['non_edges']:
-                    emit('%s %s' % (ref_key(b1, o1), render_ref(rnd, b2, o2, a2)))
+                    # the anchor's order may be spelled as a prefix or as an explicit attribute, like any other reference
+                    emit('%s %s' % (render_ref(rnd, b1, o1, {}), render_ref(rnd, b2, o2, a2)))
             if it['patterns']:
                 emit('[ patterns ]', ['subsection'])
                 for pat in it['patterns']:
